@@ -293,7 +293,8 @@ class Check:
             nt = 6
         for i, (topo, kinds) in enumerate(combos):
             specs.append({"name": f"{topo}-{'+'.join(kinds)}-{i}", "topo": topo, "kinds": kinds, "seed": seed * 100 + i, "ticks": nt})
-        for i, f in enumerate(FACTORS if tier == "thorough" else [0.6, 1.0, 2.5]):
+        # 0.01 / 0.03: the channel holds less than ONE frame (the very first frame of a tick already has to be refused)
+        for i, f in enumerate((FACTORS + [0.01, 0.03]) if tier == "thorough" else [0.01, 0.03, 0.6, 1.0, 2.5]):
             specs.append({"name": f"wireless-{f}", "topo": "wireless", "factor": f, "seed": seed * 100 + i, "ticks": nt})
         return specs
 
